@@ -423,18 +423,30 @@ func showTo(b *strings.Builder, obj slip.Object) {
 
 // ---- feature classes (used for signatures and for the avoid set) ----
 
-// runeClass names the class of a code point. ASCII code points that are not
-// letters or digits are their own class (each is its own piece of syntax).
+// runeClass names the class of a code point as "<syntax group>:<code point or
+// sub-class>". The groups are the standard syntax types of the Lisp reader.
 func runeClass(r rune) string {
 	switch {
 	case 'a' <= r && r <= 'z':
-		return "lower"
+		return "constituent:lower"
 	case 'A' <= r && r <= 'Z':
-		return "upper"
+		return "constituent:upper"
 	case '0' <= r && r <= '9':
-		return "digit"
+		return "constituent:digit"
+	case r == '\t' || r == '\n' || r == '\f' || r == '\r' || r == ' ':
+		return fmt.Sprintf("whitespace:U+%04X", r)
+	case r < 0x20 || r == 0x7f:
+		return fmt.Sprintf("control:U+%04X", r)
+	case strings.ContainsRune("\"'(),;`", r):
+		return fmt.Sprintf("terminating-macro:U+%04X", r)
+	case r == '#':
+		return "non-terminating-macro:U+0023"
+	case r == '\\':
+		return "single-escape:U+005C"
+	case r == '|':
+		return "multiple-escape:U+007C"
 	case r < 0x80:
-		return fmt.Sprintf("U+%04X", r)
+		return fmt.Sprintf("constituent:U+%04X", r)
 	}
 	zone := "bmp"
 	switch {
@@ -471,26 +483,32 @@ func category(r rune) string {
 }
 
 // textClass summarises a symbol name or string content by the sorted set of
-// classes of its code points that are not plain lower-case letters.
+// classes of its code points; plain letters and digits are left out unless
+// nothing else is there. coarse folds every non-ASCII code point into one class.
 func textClass(s string, coarse bool) string {
 	if s == "" {
 		return "empty"
 	}
 	seen := map[string]bool{}
-	var cls []string
+	var cls, plain []string
 	for _, r := range s {
 		c := runeClass(r)
 		if coarse && 0x80 <= r {
 			c = "nonascii"
 		}
-		if c == "lower" || seen[c] {
+		if seen[c] {
 			continue
 		}
 		seen[c] = true
+		if c == "constituent:lower" || c == "constituent:upper" || c == "constituent:digit" {
+			plain = append(plain, c)
+			continue
+		}
 		cls = append(cls, c)
 	}
 	if len(cls) == 0 {
-		return "plain"
+		sortStrings(plain)
+		return strings.Join(plain, "+")
 	}
 	sortStrings(cls)
 	if 3 < len(cls) {
@@ -521,6 +539,9 @@ func numericLooking(s string) bool {
 	if i < len(ls) && (ls[i] == '+' || ls[i] == '-') {
 		i++
 	}
+	if i < len(ls) && ls[i] == '.' {
+		i++
+	}
 	if len(ls) <= i || !('0' <= ls[i] && ls[i] <= '9') {
 		return false
 	}
@@ -533,54 +554,79 @@ func numericLooking(s string) bool {
 	return true
 }
 
-// leafClass names the class of a leaf for signatures.
-func (o *O) leafClass() string {
+// leafKind and leafClass name a leaf for signatures: the kind of object and
+// the class of its value within that kind.
+func (o *O) leafKind() string {
 	switch o.K {
-	case "nil", "t":
-		return o.K
 	case "int":
 		bi, _ := new(big.Int).SetString(o.V, 10)
-		c := "fixnum"
 		if !bi.IsInt64() {
-			c = "bignum"
+			return "bignum"
+		}
+		return "fixnum"
+	case "sf":
+		return "single-float"
+	case "df":
+		return "double-float"
+	case "lf":
+		return "long-float"
+	}
+	return o.K
+}
+
+func (o *O) leafClass() string {
+	switch o.K {
+	case "int":
+		if strings.HasPrefix(o.V, "-") {
+			return "negative"
+		}
+		return "non-negative"
+	case "ratio":
+		c := "small"
+		if 37 < len(o.V) {
+			c = "big"
+		} else {
+			q, _ := new(big.Rat).SetString(o.V)
+			if !q.Num().IsInt64() || !q.Denom().IsInt64() {
+				c = "big"
+			}
+		}
+		if strings.HasPrefix(o.V, "-") {
+			c += "-negative"
 		}
 		return c
-	case "ratio":
-		return "ratio"
 	case "sf", "df":
 		bits := 64
-		name := "double"
 		if o.K == "sf" {
-			bits, name = 32, "single"
+			bits = 32
 		}
 		f, _ := strconv.ParseFloat(o.V, bits)
-		return name + ":" + floatClass(f, bits)
+		return floatClass(f, bits)
 	case "lf":
 		f := parseLong(o.V)
 		switch {
 		case f.Sign() == 0:
-			return "long:zero"
+			return "zero"
 		case f.IsInt():
-			return "long:integral"
+			return "integral"
 		}
-		return "long:fraction"
+		return "fraction"
 	case "str":
-		return "str[" + textClass(o.V, false) + "]"
+		return textClass(o.V, false)
 	case "chr":
 		n, _ := strconv.Atoi(o.V)
-		c := runeClass(rune(n))
-		if n < 0x80 && !strings.HasPrefix(c, "U+") {
-			c = fmt.Sprintf("U+%04X", n) // every ASCII character is its own class after #\
+		if n < 0x80 {
+			c := runeClass(rune(n))
+			return c[:strings.IndexByte(c, ':')] + fmt.Sprintf(":U+%04X", n) // every ASCII character is its own class after #\
 		}
-		return "chr[" + c + "]"
+		return runeClass(rune(n))
 	case "sym", "kw":
-		c := textClass(o.V, true)
 		if o.K == "sym" && numericLooking(o.V) {
-			c = "numeric-looking"
+			return "numeric-looking"
 		}
-		return o.K + "[" + c + "]"
+		return textClass(o.V, true)
 	}
-	return o.K
+	return "-"
 }
 
 func floatClass(f float64, bits int) string {
@@ -602,23 +648,14 @@ func floatClass(f float64, bits int) string {
 	return "fraction"
 }
 
-// shapeIn renders the canonical object of a signature: in the canonical
-// contexts (top, list) only the class of the leaf is named.
-func (o *O) shapeIn(ctx string) string {
-	switch ctx {
-	case "top":
-		return o.leafClass()
-	case "list":
-		return o.E[0].leafClass()
-	}
-	return o.shape()
-}
-
 // shape renders the structure of a (minimised) object in terms of leaf
-// classes; runs of equal children are collapsed.
+// kinds; runs of equal children are collapsed.
 func (o *O) shape() string {
 	if !o.composite() {
-		return o.leafClass()
+		if c := o.leafClass(); c != "-" && !(o.K == "int" && o.V == "1") {
+			return o.leafKind() + "[" + c + "]"
+		}
+		return o.leafKind()
 	}
 	var parts []string
 	for _, e := range o.E {
